@@ -799,6 +799,12 @@ func runClient() {
 	h.explore([]call{rowCall(1, "z", "y", true), rowCall(2, "y", "x", true), rowCall(1, "y", "z", false), rowCall(2, "x", "y", false), txCall(2), txCall(4)}, h.n, "nosig")
 	h.report()
 	h.close()
+	var pk []string
+	for k := range panicKinds {
+		pk = append(pk, k)
+	}
+	sort.Strings(pk)
+	c.Set("D_client_panic_messages_not_a_C01_matter", pk)
 }
 
 // attackDemo: end-to-end reproduction, with the real client, of what the store-level part reports as
